@@ -156,11 +156,11 @@ Lemma chan_at_with_reader s x c : chan_at (with_reader s x) c = chan_at s c.  Pr
 Lemma chan_at_with_socket s x c : chan_at (with_socket s x) c = chan_at s c.  Proof. reflexivity. Qed.
 Lemma chan_at_with_incoming s x c : chan_at (with_incoming s x) c = chan_at s c.  Proof. reflexivity. Qed.
 Lemma chan_at_with_dead s x c : chan_at (with_dead s x) c = chan_at s c.  Proof. reflexivity. Qed.
-Lemma chan_at_with_cloned s x c : chan_at (with_cloned s x) c = chan_at s c.  Proof. reflexivity. Qed.
+Lemma chan_at_with_arcs s x c : chan_at (with_arcs s x) c = chan_at s c.  Proof. reflexivity. Qed.
 Lemma chan_at_bury s sid st c : chan_at (bury s sid st) c = chan_at (set_chan s (s_ch st) (drop_rcv sid (chan_at s (s_ch st)))) c.
 Proof. reflexivity. Qed.
 #[export] Hint Rewrite chan_at_with_senders chan_at_with_subs chan_at_with_streams chan_at_with_adds chan_at_with_drops
-  chan_at_with_tasks chan_at_with_reader chan_at_with_socket chan_at_with_incoming chan_at_with_dead chan_at_with_cloned
+  chan_at_with_tasks chan_at_with_reader chan_at_with_socket chan_at_with_incoming chan_at_with_dead chan_at_with_arcs
   chan_at_bury : chat.
 
 Lemma chans_bury s sid st : chans (bury s sid st) = upd (chans s) (s_ch st) (drop_rcv sid (chan_at s (s_ch st))).
